@@ -63,7 +63,9 @@ def case_strategy(draw, tier):
     kind = draw(st.sampled_from(KINDS))
     case = {"tree": t, "kind": kind, "center": draw(st.sampled_from(["origin", "root", "root", "soma"])),
             "via": draw(st.sampled_from(["instance", "classmethod"])),
-            "shift_root": draw(st.booleans()) or True}
+            "shift_root": draw(st.booleans()) or True,
+            # the transform object has already been applied to another tree that came from the same file
+            "reused": draw(st.integers(0, 2)) == 0}
     fl = st.floats(min_value=-100, max_value=100, allow_nan=False, width=32)
     if kind == "translate":
         case["t"] = [draw(fl), draw(fl), draw(fl)]
@@ -119,27 +121,27 @@ def _make(case):
     kw = {"center": center}
     if kind == "translate":
         tv = case["t"]
-        f = (lambda x: T.Translate(*tv)(x)) if via == "instance" else (lambda x: T.Translate.transform(x, *tv))
+        f = T.Translate(*tv) if via == "instance" else (lambda x: T.Translate.transform(x, *tv))
         inv = lambda x: T.Translate(-tv[0], -tv[1], -tv[2])(x)  # noqa
         return f, np.eye(3), np.array(tv, dtype=np.float64), False, inv
     if kind == "translate_origin":
-        f = (lambda x: T.TranslateOrigin()(x)) if via == "instance" else (lambda x: T.TranslateOrigin.transform(x))
+        f = T.TranslateOrigin() if via == "instance" else (lambda x: T.TranslateOrigin.transform(x))
         return f, np.eye(3), None, False, None
     if kind == "scale":
         s = case["s"]
-        f = (lambda x: T.Scale(*s, **kw)(x)) if via == "instance" else (lambda x: T.Scale.transform(x, *s, **kw))
+        f = T.Scale(*s, **kw) if via == "instance" else (lambda x: T.Scale.transform(x, *s, **kw))
         inv = lambda x: T.Scale(1 / s[0], 1 / s[1], 1 / s[2], **kw)(x)  # noqa
         return f, np.diag(np.array(s, dtype=np.float64)), np.zeros(3), True, inv
     if kind == "rotate":
         ax, th = _unit(case["axis"]), case["theta"]
-        f = (lambda x: T.Rotate(ax, th, **kw)(x)) if via == "instance" else (lambda x: T.Rotate.transform(x, ax, th, **kw))
+        f = T.Rotate(ax, th, **kw) if via == "instance" else (lambda x: T.Rotate.transform(x, ax, th, **kw))
         inv = lambda x: T.Rotate(ax, -th, **kw)(x)  # noqa
         return f, models.rodrigues(ax, th), np.zeros(3), True, inv
     if kind in ("rotate_x", "rotate_y", "rotate_z"):
         cls = {"rotate_x": T.RotateX, "rotate_y": T.RotateY, "rotate_z": T.RotateZ}[kind]
         ax = {"rotate_x": [1, 0, 0], "rotate_y": [0, 1, 0], "rotate_z": [0, 0, 1]}[kind]
         th = case["theta"]
-        f = (lambda x: cls(th, **kw)(x)) if via == "instance" else (lambda x: cls.transform(x, th, **kw))
+        f = cls(th, **kw) if via == "instance" else (lambda x: cls.transform(x, th, **kw))
         inv = lambda x: cls(-th, **kw)(x)  # noqa
         return f, models.rodrigues(ax, th), np.zeros(3), True, inv
     if kind == "affine":
@@ -152,7 +154,7 @@ def _make(case):
         tm = np.eye(4, dtype=np.float32)
         tm[:3, :3] = A
         tm[:3, 3] = b
-        f = lambda x: T.AffineTransform(tm, **kw)(x)  # noqa
+        f = T.AffineTransform(tm, **kw)
         Ai = np.linalg.inv(A)
         tmi = np.eye(4, dtype=np.float32)
         tmi[:3, :3] = Ai
@@ -193,6 +195,14 @@ def run_case(case, ctx):
         ctx.cls("angle:multiple-of-pi/2")
     ctx.nontrivial(n >= 3 and _noncollinear(X) and generic_angle and float(np.linalg.norm(X[root])) >= 1.0)
 
+    if case.get("reused") and case["via"] == "instance":
+        # one transform object, two trees with the same `source` (say, a neuron and a shifted copy of it)
+        tree = gen_tree.build_tree(t, source="shared.swc")
+        before = {k: v.copy() for k, v in tree.ndata.items()}
+        t_dec = dict(t, x=[gen_tree.f32(v + 7.0) for v in t["x"]], y=[gen_tree.f32(v - 3.0) for v in t["y"]],
+                     z=[gen_tree.f32(v + 5.0) for v in t["z"]])
+        ctx.lib(f"{kind}/apply", f, gen_tree.build_tree(t_dec, source="shared.swc"))
+        ctx.cls("transform-object-reused-on-a-tree-of-the-same-source")
     out = ctx.lib(f"{kind}/apply", f, tree)
 
     for k, v in before.items():
@@ -283,7 +293,8 @@ SUBCHECKS = [
     Sub("apply", case_strategy, run_case, quick=2400, thorough=32000, shards_quick=4,
         required=dict({f"kind:{k}": 100 for k in KINDS}, **{"center:root": 200, "center:origin": 200,
                                                             "center:soma": 100, "via:classmethod": 300,
-                                                            "angle:multiple-of-pi/2": 20, "root-not-at-0": 200, "n>60": 60})),
+                                                            "angle:multiple-of-pi/2": 20, "root-not-at-0": 200, "n>60": 60,
+                                                            "transform-object-reused-on-a-tree-of-the-same-source": 150})),
     Sub("builders", builder_strategy, run_builder, quick=600, thorough=8000, shards_quick=2,
         required={"axis:general": 200, "axis:coordinate": 30}),
 ]
